@@ -59,3 +59,27 @@ c("modular", U, MO, r"^\s*fn inver\(&self, val: isize\) -> isize \{", "Modular::
 c("modular", U, MO, r"^\s*pub fn le\(&self, a: isize, b: isize\) -> bool \{", "Modular::le",
   "#[kani::requires(verif_state::pre_le(self, a, b))]",
   "#[kani::ensures(|r| verif_state::post_le(self, a, b, *r))]")
+
+# ---- C11: Tagged<T> — tagging never corrupts the address; timestamp bits invisible -------------
+PT = "src/ebr_impl/pointers.rs"
+TG = r"^impl<T> Tagged<T> \{"
+
+
+def tagged(fn, sig, ret, args):
+    a = "".join(", " + x for x in args)
+    c("tagged", PT, TG, r"^\s*pub fn %s\(%s\) -> %s \{" % (fn, sig, ret), "Tagged::" + fn,
+      "#[kani::ensures(|r| verif_ptr::post_%s(self%s, r))]" % (fn, a))
+
+
+c("tagged", PT, TG, r"^\s*pub fn null\(\) -> Self \{", "Tagged::null",
+  "#[kani::ensures(|r| verif_ptr::post_null(r))]")
+tagged("is_null", "&self", "bool", [])
+tagged("tag", "&self", "usize", [])
+tagged("high_tag", "&self", "usize", [])
+tagged("as_raw", "&self", r"\*mut T", [])
+tagged("with_tag", "&self, tag: usize", "Self", ["tag"])
+tagged("with_high_tag", "&self, tag: usize", "Self", ["tag"])
+c("tagged", PT, TG, r"^\s*pub fn ptr_eq\(self, other: Self\) -> bool \{", "Tagged::ptr_eq",
+  "#[kani::ensures(|r| verif_ptr::post_ptr_eq(&self, &other, r))]")
+c("tagged", PT, None, r"^fn with_tag<T>\(ptr: \*mut T, tag: usize\) -> \*mut T \{", "pointers::with_tag",
+  "#[kani::ensures(|r| verif_ptr::post_free_with_tag::<T>(ptr, tag, *r))]")
